@@ -58,9 +58,8 @@ where
             .as_ref()
             .trim()
             .replace("\r\n", "\n") // The fenestration company
-            .replace('\r', "\n") // The fruit company
-            .replace("\n:", "\n") // Line continuation markers
-            .to_string();
+            .replace('\r', "\n"); // The fruit company
+        let all = remove_continuation_markers(&all);
         // Remove comments
         let mut trimmed = String::new();
         for line in all.lines() {
@@ -134,10 +133,8 @@ where
 
     fn normalize(&self) -> String {
         // Tweak everything into canonical form
-        self.as_ref()
-            .trim()
-            .trim_matches(':')
-            .replace("\n:", "\n")
+        let text = self.as_ref().trim().trim_matches(':');
+        remove_continuation_markers(text)
             .split_whitespace()
             .collect::<Vec<_>>()
             .join(" ")
@@ -190,15 +187,28 @@ where
     }
 }
 
+/// Remove the line continuation markers: a ':' as the first character of a
+/// line. Since lines are trimmed anyway, the marker may be indented
+fn remove_continuation_markers(text: &str) -> String {
+    let mut joined = String::new();
+    for (i, line) in text.split(['\n', '\r']).enumerate() {
+        if i == 0 {
+            joined += line;
+            continue;
+        }
+        joined.push('\n');
+        let trimmed = line.trim_start();
+        joined += trimmed.strip_prefix(':').unwrap_or(line);
+    }
+    joined
+}
+
 /// Impose line ending sanity, join continuation lines and remove comments:
 /// what `split_into_steps` does before splitting, made available for
 /// definitions that consist of a single step
 pub fn remove_comments(definition: &str) -> String {
-    let all = definition
-        .trim()
-        .replace("\r\n", "\n")
-        .replace('\r', "\n")
-        .replace("\n:", "\n");
+    let all = definition.trim().replace("\r\n", "\n").replace('\r', "\n");
+    let all = remove_continuation_markers(&all);
     let mut trimmed = String::new();
     for line in all.lines() {
         let line: Vec<&str> = line.trim().split('#').collect();
